@@ -42,8 +42,8 @@ def step (base : Bool) (st : St) (j : Json) : Except String (St × String) := do
       regexExcluded := strs j "regexExcluded", disableAssets := boolD j "disableAssets" false,
       domainsCrawl := !(strs j "domainsCrawl").isEmpty, dcMatch := strs j "dcMatch",
       maxHops := natD j "maxHops" 0, maxRedirect := natD j "maxRedirect" 20,
-      useSeencheck := !(boolD j "disableSeencheck" false) }
-    let seen := if boolD j "resetSeen" true then [] else st.seen
+      useSeencheck := !(boolD j "disableSeencheck" false), useHQ := boolD j "useHQ" false }
+    let seen := if boolD j "resetSeen" true then (strs j "hqSeen").map (fun v => (v, false)) else st.seen
     pure ({ st with cfg := cfg, seen := seen }, "ok")
   | "seed" =>
     let u ← str j "url"
@@ -59,8 +59,9 @@ def step (base : Bool) (st : St) (j : Json) : Except String (St × String) := do
         some { canon := strD v "canon" "", host := strD v "host" "", path := strD v "path" "", href := strD v "href" "" }
       | _ => none
     let (t', seen', out) := preprocess S I st.cfg norm st.seen st.tree
+    let sent := if st.cfg.useHQ then " sent=" ++ ",".intercalate ((preSent S I st.cfg norm st.tree).map hx) else ""
     match out with
-    | .ok => pure ({ st with tree := t', seen := seen' }, dump t')
+    | .ok => pure ({ st with tree := t', seen := seen' }, dump t' ++ sent)
     | .panic => pure (st, "panic")
     | .crash => pure (st, "crash")
   | "arch" =>
